@@ -2,7 +2,8 @@
 from __future__ import annotations
 import copy, json, random
 from ..common import Result, Violation, run_driver, canon_hash
-from ..langgen import LangGen, gen_model, lang_payload, build_lang, build_model
+from ..langgen import LangGen, gen_model, lang_payload, build_lang, build_model, jtxt
+from .. import genexec
 
 ASSUMPTIONS = [
     'languages well-formed; two declarations with the same (name, left asset, right asset) but different field names are merged by the toolbox (recorded known finding KF-C15-1) and are not generated in the asserted stream',
@@ -112,6 +113,175 @@ def overapprox_probs(spec, lg, r):
                     probs.append(f'attack-graph edge {n.full_name} -> {c.full_name} ({n.asset.type} -> {c.asset.type}) is not predicted by a language-graph link'); return probs, inst
     return probs, None
 
+
+# ---------------------------------------------------------------------------------------------------------------------
+# third column (notes/NOTES_genexec2_lang.md): the GENERATED `lg__generate_graph` (Py/GenLangType/Build.lean) run by the
+# driver op `gen_langgraph` on the loaded specification, and the GENERATED lookups of Py/GenLang asked of the heap it built,
+# against the real `LanguageGraph(spec)` and its methods.  Objects are named by their position in the list of the language
+# graph that holds them (identity on the Python side: `id()`), so lists of objects are compared with their order.
+_OTHER = {'AttributeError', 'TypeError', 'StopIteration', 'IndexError'}
+def gen_class(name, lookup=False):
+    """the class of an exception as the preludes keep them apart (PreludeLangType convention 11: AttributeError / TypeError on
+    None, StopIteration, IndexError are one class; so is the LanguageGraphAssociationError of `get_opposite_fieldname` in the
+    `lang` domain)"""
+    if name in _OTHER or (lookup and name == 'LanguageGraphAssociationError'): return 'OtherError'
+    return name
+
+def _canon_step(s):
+    if s is None: return None
+    return {'name': s['name'], 'type': s['type'], 'tags': list(s.get('tags') or []), 'ttc': jtxt(s.get('ttc')),
+            'meta': jtxt(s.get('meta', {})), 'risk': jtxt(s.get('risk')),
+            'requires': s['requires']['stepExpressions'] if s.get('requires') else None,
+            'reaches': {'overrides': bool(s['reaches']['overrides']), 'exprs': s['reaches']['stepExpressions']} if s.get('reaches') else None}
+
+def _index(objs):
+    d = {}
+    for i, o in enumerate(objs): d.setdefault(id(o), i)
+    return d
+
+def gen_picture(lg):
+    """the real language graph read off object by object, in the format of `graph` of op `gen_langgraph`"""
+    aidx, cidx, tidx = _index(lg.assets), _index(lg.associations), _index(lg.attack_steps)
+    A = lambda o: aidx.get(id(o), -1)
+    def chain(c):
+        if c is None: return None
+        return [c.type, chain(c.next_link), c.fieldname, None if c.association is None else cidx.get(id(c.association), -1),
+                chain(c.left_chain), chain(c.right_chain), None if c.subtype is None else A(c.subtype)]
+    links = lambda d: [[k, [[tidx.get(id(t), -1), chain(c)] for (t, c) in lst]] for k, lst in d.items()]
+    fld = lambda f: [A(f.asset), f.fieldname, f.minimum, f.maximum]
+    return {'assets': [[a.name, a.is_abstract, jtxt(a.description), [cidx.get(id(x), -1) for x in a.associations],
+                        [tidx.get(id(t), -1) for t in a.attack_steps], [A(x) for x in a.super_assets], [A(x) for x in a.sub_assets]]
+                       for a in lg.assets],
+            'assocs': [[x.name, fld(x.left_field), fld(x.right_field), jtxt(x.description)] for x in lg.associations],
+            'steps': [[t.name, t.type, A(t.asset), jtxt(t.ttc), jtxt(t.description), _canon_step(t.attributes), links(t.children), links(t.parents)]
+                      for t in lg.attack_steps]}
+
+def gen_queries(spec, quads, k):
+    """the sample of lookups asked of the generated code of `Py/GenLang` (beyond the subtype matrix, the ancestor / descendant
+    lists of every asset and the association lookups `quads` of the case): drawn from the case number, not from the case's
+    generator (the stream of the existing check is unchanged)"""
+    r = random.Random(0xC15 * 1000003 + k)
+    types = [a['name'] for a in spec['assets']]
+    fields = sorted({d['leftField'] for d in spec['associations']} | {d['rightField'] for d in spec['associations']})
+    vnames = sorted({v['name'] for a in spec['assets'] for v in a.get('variables', [])})
+    na, nc = len(types), len(spec['associations'])
+    return {'byname': types + ['Nope', ''],
+            'vars': [[a['name'], v['name']] for a in spec['assets'] for v in a.get('variables', [])][:6] +
+                    [[r.choice(types + ['Nope']), r.choice(vnames + ['nope'])] for _ in range(6)],
+            # indices into `lg.associations` (there may be fewer objects than declarations: out of range = skipped on both sides)
+            'aq': [[r.randrange(nc), r.choice(fields + ['nofield']), r.randrange(na)] for _ in range(6)] if nc else [],
+            'common': [[r.randrange(na), r.randrange(na)] for _ in range(6)]}
+
+def gen_answers(lg, quads, q, spec=None):
+    """the real methods asked the queries of `gen_queries`, in the format of op `gen_langgraph`"""
+    aidx, cidx = _index(lg.assets), _index(lg.associations)
+    A = lambda o: None if o is None else aidx.get(id(o), -1)
+    def exc(f, lookup=True):
+        try: return f()
+        except RecursionError: return {'error': 'RecursionError'}
+        except Exception as e: return {'error': gen_class(type(e).__name__, lookup)}
+    out = {'isSub': [[exc(lambda: a.is_subasset_of(b)) for b in lg.assets] for a in lg.assets],
+           'isSubNone': [exc(lambda: a.is_subasset_of(None)) for a in lg.assets],
+           'supers': [exc(lambda: [A(x) for x in a.get_all_superassets()]) for a in lg.assets],
+           'subs': [exc(lambda: [A(x) for x in a.get_all_subassets()]) for a in lg.assets],
+           'lookups': [exc(lambda: (lambda x: None if x is None else cidx.get(id(x), -1))(lg.get_association_by_fields_and_assets(*qd))) for qd in quads],
+           'byname': [A(lg.get_asset_by_name(n)) for n in q['byname']],
+           'vars': [exc(lambda: (lambda x: None if x is None else {'expr': x})(lg._get_variable_for_asset_type_by_name(t, v))) for t, v in q['vars']],
+           'aq': [], 'common': [], 'specUnchanged': spec is None or lg._lang_spec == spec}
+    for ci, f, ai in q['aq']:
+        if ci >= len(lg.associations): out['aq'].append(None); continue
+        x, a = lg.associations[ci], lg.assets[ai]
+        out['aq'].append([x.contains_fieldname(f), exc(lambda: x.contains_asset(a)), exc(lambda: x.get_opposite_fieldname(f)),
+                          exc(lambda: A(x.get_opposite_asset(a)))])
+    for ai, bi in q['common']:
+        out['common'].append(exc(lambda: sorted(lg.assets[ai].get_all_common_superassets(lg.assets[bi]))))
+    return out
+
+def _flat(links):
+    return sorted(json.dumps(p, sort_keys=True) for _, lst in links for p in lst)
+
+def gen_compare(pic, ans, go, q, res=None):
+    """generated column against the implementation: `(what differs | None, order drift)`.  Exact: asset objects with all
+    attributes and their lists (associations, attack steps, super / sub assets) in order, association objects in creation
+    order with fields and multiplicities, attack-step objects in the order of `LanguageGraph.attack_steps` with all
+    attributes; the `children` / `parents` dictionaries of every step as MULTISETS of (target object, dependency chain)
+    (their key order / list order only counted as drift); every lookup answer; `get_all_common_superassets` as a set."""
+    g = go['graph']
+    for k in ('assets', 'assocs'):
+        if g[k] != pic[k]: return k, 0
+    if len(g['steps']) != len(pic['steps']): return 'steps', 0
+    drift = 0
+    for i, (a, b) in enumerate(zip(g['steps'], pic['steps'])):
+        if a[:6] != b[:6]: return f'attributes of attack step {i}', 0
+        for side, j in (('children', 6), ('parents', 7)):
+            if a[j] != b[j]:
+                if _flat(a[j]) != _flat(b[j]): return f'{side} of attack step {i} ({b[0]})', 0
+                drift += 1
+    if ans is not None:
+        if bool(go.get('specUnchanged')) != ans['specUnchanged']: return 'on whether the construction left the specification unchanged', drift
+        for k in ('isSub', 'isSubNone', 'supers', 'subs', 'lookups', 'byname', 'vars'):
+            if go[k] != ans[k]: return 'lookup ' + k, drift
+        for x, y in zip(go['aq'], ans['aq']):
+            if y is not None and x != y: return 'lookup aq', drift
+        for x, y in zip(go['common'], ans['common']):
+            if (sorted(set(x)) if isinstance(x, list) else x) != y: return 'lookup common', drift
+        if res is not None:
+            res.bump('generated_code_lookups_compared', sum(len(r) for r in ans['isSub']) + 3 * len(ans['supers']) + len(ans['lookups']) +
+                     len(ans['byname']) + len(ans['vars']) + 4 * len(ans['aq']) + len(ans['common']))
+    return None, drift
+
+def gen_links(go):
+    """the links of the generated column in the format of `observe` (for the replay files)"""
+    st = go['graph']['steps']; an = [a[0] for a in go['graph']['assets']]
+    return [[an[s[2]], s[0], an[st[t][2]], st[t][0]] for s in st for _, lst in s[6] for (t, _) in lst]
+
+def gen_only_mutants(spec, k):
+    """ill-formed variants for the third column only (implementation vs generated code; the hand model is known to name
+    another class on most of them - notes/NOTES_langtype.md §8 - so it is not consulted): the exceptions that are NOT one of
+    the four classes of `languagegraph.py`.  Drawn from the case number (the stream of the existing check is unchanged)."""
+    r = random.Random(0xC15E * 1000003 + k)
+    out = []
+    withr = [(ai, si) for ai, a in enumerate(spec['assets']) for si, st in enumerate(a['attackSteps']) if st.get('reaches')]
+    fields = sorted({d['leftField'] for d in spec['associations']} | {d['rightField'] for d in spec['associations']}) or ['f']
+    def add(what, e):
+        s = copy.deepcopy(spec); ai, si = r.choice(withr)
+        st = s['assets'][ai]['attackSteps'][si]
+        st['reaches']['stepExpressions'].append({'type': 'collect', 'lhs': e, 'rhs': {'type': 'attackStep', 'name': st['name']}})
+        out.append((what, s))
+    if withr:
+        F = lambda n: {'type': 'field', 'name': n}
+        kind = k % 5
+        if kind == 0: add('set operation over an untyped operand', {'type': r.choice(['union', 'intersection', 'difference']), 'lhs': F('noSuchField'), 'rhs': F(r.choice(fields))})
+        if kind == 1: add('unknown subtype', {'type': 'subType', 'subType': 'NoSuchAsset', 'stepExpression': F(r.choice(fields + ['noSuchField']))})
+        if kind == 2: add('unknown variable', {'type': 'variable', 'name': 'noSuchVariable'})
+        if kind == 4: add('subtype of an untyped operand', {'type': 'subType', 'subType': r.choice(spec['assets'])['name'], 'stepExpression': F('noSuchField')})
+        if kind == 3: add('variable of an untyped operand', {'type': 'collect', 'lhs': F('noSuchField'), 'rhs': {'type': 'variable', 'name': 'noSuchVariable'}})
+    # (cyclic `extends` is not drawn: the real constructor then either ends in RecursionError or does not end at all - the
+    # `while associated_assets != []` walk over cyclic `sub_assets` - see notes/NOTES_genexec2_lang.md for the one-off run)
+    return out
+
+def gen_column(res, spec, quads, lg, g, q, report):
+    """one well-formed case of the third column (`lg` = the real language graph of `spec`)"""
+    if 'error' in g:
+        res.violations.append(genexec.driver_error('C15', g['error'], {'spec': spec})); return
+    go = g['model']
+    res.bump('generated_code_graphs_compared')
+    if 'error' in go:
+        what, drift = 'on whether the construction returns: the generated code raises ' + go['error'], 0
+    else:
+        pic = gen_picture(lg)
+        what, drift = gen_compare(pic, gen_answers(lg, quads, q, spec), go, q, res)
+        res.bump('generated_code_objects_compared', len(pic['assets']) + len(pic['assocs']) + len(pic['steps']))
+        res.bump('generated_code_links_compared', sum(len(l) for t in pic['steps'] for _, l in t[6]))
+    if drift: res.bump('generated_code_link_order_drift', drift)
+    if what is None: return
+    if not report:
+        res.bump('generated_code_disagrees_while_the_oracle_fails'); return
+    op = '_generate_graph' if not what.startswith('lookup') else what.split()[1]
+    res.violations.append(genexec.divergence('C15', op, f'on the language graph ({what})' if op == '_generate_graph' else f'on the lookups ({what})',
+        {'spec': spec, 'quads': quads, 'queries': q, 'differs': what, 'generated': str(go)[:6000],
+         'impl': None if 'error' in go else str({'graph': gen_picture(lg), **gen_answers(lg, quads, q, spec)})[:6000]}))
+
 def run(seed, tier, lean) -> Result:
     rnd = random.Random(seed)
     res = Result(rule='random well-typed languages (incl. unions of sibling types, duplicate association names between different asset pairs, fields '
@@ -138,8 +308,11 @@ def run(seed, tier, lean) -> Result:
             quads.append([d['rightField'], d['leftField'], r.choice(subsR), r.choice(subsL)])
         for _ in range(10): quads.append([r.choice(fields), r.choice(fields), r.choice(types + ['Nope']), r.choice(types)])
         cases.append((spec, quads, r, same_ends))
-    model = run_driver([{'op': 'langgraph', 'case': i, 'lang': lang_payload(s), 'lookups': q} for i, (s, q, r, _) in enumerate(cases)]) if lean['build_ok'] else None
+    gq = [gen_queries(s, q, i) for i, (s, q, r, _) in enumerate(cases)]
+    model, gen = genexec.run_both([{'op': 'langgraph', 'case': i, 'lang': lang_payload(s), 'lookups': q} for i, (s, q, r, _) in enumerate(cases)],
+                                  'gen_langgraph', rewrite=lambda p: {**p, 'queries': True, **gq[p['case']]}) if lean['build_ok'] else (None, None)
     mut_cases = []
+    gen_mut = []
     prev = None
     for i, (spec, quads, r, same_ends) in enumerate(cases):
         res.evaluations += 1
@@ -161,8 +334,12 @@ def run(seed, tier, lean) -> Result:
         if same_ends: res.bump('same role name on both ends (lookups only)')
         if not probs and not same_ends:
             try:
-                from ..common import time_limit
+                from ..common import time_limit, CaseTimeout
                 with time_limit(30): probs, inst = overapprox_probs(spec, lg, r)
+            except CaseTimeout:
+                # (`CaseTimeout` is a BaseException: before genexec2 it escaped here and ended the whole run - seed 1, a model
+                # on which the pjs `==` of the real generation needs more than 30 s; counted as skipped, as `common.guarded` does)
+                res.bump('skipped: the real attack-graph generation ran for more than 30 s on this case')
             except Exception as e: res.notes.append('attack graph generation failed in C15: ' + type(e).__name__)
         depth2 = any(len(anc(spec, a['name'])) >= 3 for a in spec['assets'])
         if depth2 and any(any(by_sub for by_sub in spec['assets'] if by_sub['superAsset'] in (d['leftAsset'], d['rightAsset'])) for d in spec['associations']):
@@ -176,9 +353,17 @@ def run(seed, tier, lean) -> Result:
                     [[a[0], sorted(a[1]), a[2], a[3], sorted(a[4])] for a in mo['assets']] != [[a[0], sorted(a[1]), a[2], a[3], sorted(a[4])] for a in obs['assets']]:
                 res.violations.append(Violation(what='implementation and Lean model disagree on the language graph', fingerprint='C15:model-divergence',
                                                 replay={'spec': spec, 'model': str(mo)[:3000], 'impl': str(obs)[:3000]}, no_failing_input=True))
+            elif gen is not None and gen[i] is not None:
+                gen_column(res, spec, quads, lg, gen[i], gq[i], report=True)
+        if probs and gen is not None and gen[i] is not None:
+            # the direct oracle fails (a recorded finding, or an ordinary violation reported above): by the reporting rule no
+            # divergence is reported; the generated column is still compared and a disagreement counted
+            gen_column(res, spec, quads, lg, gen[i], gq[i], report=False)
         for what, s in mutants(spec, r): mut_cases.append((what, s))
+        if gen is not None: gen_mut.extend(gen_only_mutants(spec, i))
         if len(res.samples) < 2: res.samples.append({'assets': obs['assets'][:3], 'links': obs['links'][:5]})
-    mmodel = run_driver([{'op': 'langgraph', 'case': i, 'lang': lang_payload(s), 'lookups': []} for i, (w, s) in enumerate(mut_cases)]) if lean['build_ok'] else None
+    mmodel, mgen = genexec.run_both([{'op': 'langgraph', 'case': i, 'lang': lang_payload(s), 'lookups': []} for i, (w, s) in enumerate(mut_cases)],
+                                    'gen_langgraph') if lean['build_ok'] else (None, None)
     from maltoolbox.language import LanguageGraph
     for i, (what, s) in enumerate(mut_cases):
         res.evaluations += 1; res.bump('ill-formed: ' + what)
@@ -191,7 +376,109 @@ def run(seed, tier, lean) -> Result:
         elif mmodel is not None and 'error' not in mmodel[i].get('model', {}):
             res.violations.append(Violation(what=f'Lean model accepts an ill-formed language ({what}) that the implementation rejects', fingerprint='C15:model-divergence-illformed',
                                             replay={'spec': s}, no_failing_input=True))
+        elif mgen is not None and mgen[i] is not None:
+            # third column: the generated construction must raise where the real constructor raises, with the corresponding class
+            res.bump('generated_code_error_classes_compared')
+            if 'error' in mgen[i]:
+                res.violations.append(genexec.driver_error('C15', mgen[i]['error'], {'spec': s, 'what': what}))
+            elif mgen[i]['model'].get('error') != gen_class(raised):
+                res.violations.append(genexec.divergence('C15', '_generate_graph', f'on the exception an ill-formed language ({what}) ends in: the implementation raises '
+                    f'{raised}, the generated code {mgen[i]["model"].get("error", "returns a language graph")}', {'spec': s, 'what': what, 'impl_err': raised, 'generated_err': mgen[i]['model'].get('error')}))
+    if gen_mut:
+        gout = run_driver([{'op': 'gen_langgraph', 'case': i, 'lang': lang_payload(s)} for i, (w, s) in enumerate(gen_mut)])
+        for i, (what, s) in enumerate(gen_mut):
+            res.bump('generated_code_error_classes_compared'); res.bump('ill-formed (generated code only): ' + what)
+            try:
+                LanguageGraph(copy.deepcopy(s)); raised = None
+            except RecursionError: raised = 'RecursionError'
+            except Exception as e: raised = type(e).__name__
+            res.bump(f'ill-formed (generated code only): {what} -> {raised}')
+            if 'error' in gout[i]:
+                res.violations.append(genexec.driver_error('C15', gout[i]['error'], {'spec': s, 'what': what}))
+            elif gout[i]['model'].get('error') != (None if raised is None else gen_class(raised)):
+                res.violations.append(genexec.divergence('C15', '_generate_graph', f'on the exception an ill-formed language ({what}) ends in: the implementation '
+                    f'{"raises " + raised if raised else "returns a language graph"}, the generated code {"raises " + gout[i]["model"]["error"] if "error" in gout[i]["model"] else "returns a language graph"}',
+                    {'spec': s, 'what': what, 'impl_err': raised, 'generated_err': gout[i]['model'].get('error')}))
     return res
+
+def _hand_same(mo, obs):
+    """the comparison of `run` between the Lean hand model and the implementation"""
+    return not ('error' in mo or any(sorted(map(json.dumps, mo[k])) != sorted(map(json.dumps, obs[k])) for k in ('assocs', 'links')) or
+                mo['isSub'] != obs['isSub'] or mo['lookups'] != obs['lookups'] or
+                [[a[0], sorted(a[1]), a[2], a[3], sorted(a[4])] for a in mo['assets']] != [[a[0], sorted(a[1]), a[2], a[3], sorted(a[4])] for a in obs['assets']])
+
+def genexec_measure(seed: int, n: int) -> dict:
+    """seeded experiment (tools/genexec_seeded.py): n languages of the quick check and their ill-formed mutants on the
+    (mutated) implementation, the hand model and the (regenerated) generated code"""
+    from maltoolbox.language import LanguageGraph
+    from ..common import time_limit, CaseTimeout
+    rnd = random.Random(seed)
+    stats = {'cases': 0, 'impl_ne_hand': 0, 'gen_follows_impl': 0, 'gen_ne_impl': 0, 'impl_crash': 0, 'examples': []}
+    def note(kind, info):
+        if len([e for e in stats['examples'] if e[0] == kind]) < 2: stats['examples'].append([kind, info])
+    cases = []
+    for i in range(n):
+        r = random.Random(rnd.getrandbits(48))
+        same_ends = i % 5 == 4
+        spec = LangGen(r, knobs={'sibling_sets': True, 'dup_assoc_names': 0.4, 'subtype': 0.8, **({'same_field_both_ends': 0.6} if same_ends else {})}).gen()
+        fields = sorted({d['leftField'] for d in spec['associations']} | {d['rightField'] for d in spec['associations']})
+        types = [a['name'] for a in spec['assets']]
+        quads = []
+        for d in spec['associations']:
+            subsL = [t for t in types if d['leftAsset'] in anc(spec, t)]; subsR = [t for t in types if d['rightAsset'] in anc(spec, t)]
+            quads.append([d['leftField'], d['rightField'], r.choice(subsL), r.choice(subsR)])
+            quads.append([d['rightField'], d['leftField'], r.choice(subsR), r.choice(subsL)])
+        for _ in range(10): quads.append([r.choice(fields), r.choice(fields), r.choice(types + ['Nope']), r.choice(types)])
+        cases.append((spec, quads, r))
+    gq = [gen_queries(s, q, i) for i, (s, q, r) in enumerate(cases)]
+    hand, gen = genexec.run_both([{'op': 'langgraph', 'case': i, 'lang': lang_payload(s), 'lookups': q} for i, (s, q, r) in enumerate(cases)],
+                                 'gen_langgraph', rewrite=lambda p: {**p, 'queries': True, **gq[p['case']]})
+    muts = [m for (s, q, r) in cases for m in mutants(s, r)]
+    mhand, mgen = genexec.run_both([{'op': 'langgraph', 'case': i, 'lang': lang_payload(s), 'lookups': []} for i, (w, s) in enumerate(muts)], 'gen_langgraph')
+    def build(spec):
+        try:
+            with time_limit(20): return LanguageGraph(copy.deepcopy(spec)), None
+        except RecursionError: return None, 'RecursionError'
+        except CaseTimeout: return None, 'timeout'
+        except Exception as e: return None, type(e).__name__
+    kinds = stats['gen_ne_impl_kinds'] = {}
+    def classify(hand_same, gen_same, info):
+        if not gen_same:
+            stats['gen_ne_impl'] += 1; note('gen!=impl', info)
+            k = info.get('gen_differs') or f"impl {info.get('impl_err') or 'returns'} / generated {info.get('gen_err')}"
+            kinds[k] = kinds.get(k, 0) + 1
+        if not hand_same:
+            stats['impl_ne_hand'] += 1
+            if gen_same: stats['gen_follows_impl'] += 1; note('gen=impl!=hand', info)
+    for i, (spec, quads, r) in enumerate(cases):
+        stats['cases'] += 1
+        if 'error' in hand[i] or 'error' in gen[i]:
+            note('driver-error', [hand[i].get('error'), gen[i].get('error')]); continue
+        mo, go = hand[i]['model'], gen[i]['model']
+        lg, raised = build(spec)
+        if raised == 'timeout':
+            stats['impl_crash'] += 1; note('impl-crash', 'the constructor does not return within 20 s'); continue
+        if lg is None:
+            classify('error' in mo, go.get('error') == gen_class(raised),
+                     {'spec': spec, 'impl_err': raised, 'hand_err': mo.get('error'), 'gen_err': go.get('error', 'returns')})
+            continue
+        try: hs = _hand_same(mo, observe(lg, quads)); herr = None
+        except Exception as e: hs = False; herr = type(e).__name__
+        if 'error' in go: what = 'the generated code raises ' + go['error']
+        else: what = gen_compare(gen_picture(lg), gen_answers(lg, quads, gq[i], spec), go, gq[i])[0]
+        classify(hs, what is None, {'spec': spec, 'quads': quads, 'gen_differs': what, 'hand_same': hs, 'observe_raises': herr})
+    for i, (w, s) in enumerate(muts):
+        stats['cases'] += 1
+        if 'error' in mhand[i] or 'error' in mgen[i]:
+            note('driver-error', [mhand[i].get('error'), mgen[i].get('error')]); continue
+        mo, go = mhand[i]['model'], mgen[i]['model']
+        lg, raised = build(s)
+        if raised == 'timeout':
+            stats['impl_crash'] += 1; note('impl-crash', f'the constructor does not return within 20 s ({w})'); continue
+        if lg is None: gs = go.get('error') == gen_class(raised)
+        else: gs = 'error' not in go and gen_compare(gen_picture(lg), None, go, None)[0] is None
+        classify((lg is None) == ('error' in mo), gs, {'spec': s, 'what': w, 'impl_err': raised, 'hand_err': mo.get('error'), 'gen_err': go.get('error', 'returns')})
+    return stats
 
 def check_witness(w):
     spec = w['spec']
